@@ -17,7 +17,7 @@ DOM = {
 ORDER = ['fill', 'align', 'sign', 'z', 'alt', 'zero', 'width', 'group', 'prec', 'typ']
 INTS = [0, 1, -1, 7, 255, -255, 65536, 1234567, 10 ** 20, -10 ** 20, 0x110000, 0x10ffff, 97, 1000, -1000]
 FLOATS = [0.0, -0.0, 1.0, -1.5, 0.5, 1234.5678, 1e-7, 1e16, 1e22, 123456789.0, float('inf'), float('-inf'), float('nan'), 1000.0, 0.001, 2.675,
-          99999.5, 1e5, 123456.0]
+          99999.5, 1e5, 123456.0, 9.5, 99.5, 999999.5, 0.000099999995, 9.9999995, 5.0, 123.0, 2.5, 0.5]
 STRS = ['', 'a', 'abc', 'héllo', '日本語']
 BOOLS = [True, False]
 STRS2 = ['é', 'éé', 'héé', '日本語', '😀😀', 'aé', 'abc']
